@@ -159,7 +159,17 @@ class BaseOracle:
         self.seen = set()
 
     def hooks(self):
-        return {"in_callback": self.in_callback, "after_update": self.after_update, "on_action": self.on_action}
+        return {"in_callback": self.in_callback, "after_update": self.after_update, "on_action": self.on_action,
+                "before_action": self.before_action, "on_start": self.on_start, "on_end": self.on_end}
+
+    def before_action(self, run, sidx, market, action, order, state):
+        pass
+
+    def on_start(self, run):
+        pass
+
+    def on_end(self, run):
+        pass
 
     def add(self, sig, what):
         if sig not in self.seen:
